@@ -208,13 +208,27 @@ class World:
                 # slot directly followed by another slot: cannot delimit
                 ctx.count("walker_undelimited_slot")
                 return
-            end = len(have) if nxt is None else have.find(nxt, pos)
+            want = region_text(seg["slot"], self.vtree, new_state, new_text, self.clock_fields())
+            try:
+                old_r = region_text(seg["slot"], self.vtree, old_state, old_text, self.start_clock_fields) if old_state is not None else None
+            except Exception:
+                old_r = None
+            # the slot ends where the next literal begins; a rendering may itself contain that literal ("100 of 0" in
+            # front of " "), so the expected and the previous rendering are tried as a whole before searching
+            end = None
+            for cand in (want, old_r, self.pep_cache.get(old_text) if seg["slot"] == "{pep440_version}" else None):
+                if cand and have.startswith(cand, pos):
+                    p2 = pos + len(cand)
+                    if (nxt is None and p2 == len(have)) or (nxt is not None and have.startswith(nxt, p2)):
+                        end = p2
+                        break
+            if end is None:
+                end = len(have) if nxt is None else have.find(nxt, pos)
             if end < 0:
                 ctx.violation("C04", "literal_changed", dict(facts, path=path, regime=self._regime(path)),
                               "file %r: literal %r after a slot not found" % (path, nxt[:40]))
                 return
             got = have[pos:end]
-            want = region_text(seg["slot"], self.vtree, new_state, new_text, self.clock_fields())
             if got != want and seg["slot"] == "{pep440_version}" and pep_slot_ok(got, new_text):
                 ctx.count("pep440_slot_equal_not_canonical")
                 pos = end
